@@ -501,3 +501,47 @@ def a_send_that_finds_the_tunnel_closed_gives_up_at_once(t, cemi):
     else:
         # nobody closed it: both requests failed, then the tunnel is given up / reconnected
         assert requests >= 2 and "tunnel_lost" in tr
+
+
+# ------------------------------------------------------------------ the loss report of the TCP transport
+# tunnel_lost_runs_at_most_one_reconnect starts at _tunnel_lost; on TCP that callback is called by the
+# transport, which is where "the user closed it" is told apart from "it was lost".
+
+from xknx.io.transport.tcp_transport import TCPTransport as _TCPTransport  # noqa: E402
+
+
+class AsyncioSocket:
+    """asyncio.Transport by contract: close() is recorded (the loop reports connection_lost(None) later)."""
+
+    def close(self):
+        ghost("T").append("socket_close")
+
+
+class LostCallback:
+    def __call__(self):
+        ghost("T").append("loss_reported")
+
+
+@lemma("C25", family=[dict(history=h) for h in ("lost", "stopped_then_lost", "lost_twice", "never_connected")])
+def a_socket_closed_on_purpose_reports_no_loss(history):
+    """TCPTransport (also the base of the secure session): the owner's connection-lost callback - _tunnel_lost
+    for a tunnel - is called exactly once for a connection that was up and got lost (the socket closed and
+    forgotten first), and never for the connection_lost asyncio delivers after stop() - a user disconnect -
+    nor for a second report or a transport that never connected."""
+    tr = _TCPTransport(("192.168.1.2", 3671), connection_lost_cb=LostCallback())
+    protocol = _TCPTransport.TCPTransportFactory(data_received_callback=tr.data_received_callback, connection_lost_callback=tr._connection_lost)
+    if history != "never_connected":
+        tr.transport = AsyncioSocket()
+    if history == "stopped_then_lost":
+        tr.stop()
+        assert ghost("T") == ["socket_close"] and tr.transport is None
+    protocol.connection_lost(None)
+    if history == "lost_twice":
+        protocol.connection_lost(None)
+    if history in ("lost", "lost_twice"):
+        assert ghost("T") == ["socket_close", "loss_reported"]
+    elif history == "stopped_then_lost":
+        assert ghost("T") == ["socket_close"]
+    else:
+        assert ghost("T") == []
+    assert tr.transport is None
